@@ -33,6 +33,8 @@ type Check struct {
 	start time.Time
 	info  map[string]interface{}
 	assum map[string]bool
+	fu    *feeUnits
+	cw    []*ctxWrite
 }
 
 func (c *Check) pos(p token.Pos) string { return c.P.pos(p) }
